@@ -99,7 +99,7 @@ func VerifC14Isolation() {
 		same(it, id)
 		return it
 	}
-	scenario := nd.Choice("scenario", 8)
+	scenario := nd.Choice("scenario", 10)
 	switch scenario {
 	case 0: // input of PutItem
 		in := vItem{"p": vS("k"), "a": vToAV(v)}
@@ -148,6 +148,19 @@ func VerifC14Isolation() {
 				vPokeItem(ccf.Item)
 			}
 			read("C14-failure-item-not-shared")
+		case 8: // output of BatchGetItem
+			b, err := c.BatchGetItem(vCtx, &dynamodb.BatchGetItemInput{RequestItems: map[string]types.KeysAndAttributes{vTbl: {Keys: []vItem{key()}}}})
+			nd.Assert(err == nil && len(b.Responses[vTbl]) == 1, "C14-batchget-noerr")
+			if err == nil && len(b.Responses[vTbl]) == 1 {
+				vPokeItem(b.Responses[vTbl][0])
+			}
+			read("C14-batchget-output-not-shared")
+		case 9: // input of BatchWriteItem
+			in := vItem{"p": vS("k"), "a": vToAV(v)}
+			_, err := c.BatchWriteItem(vCtx, &dynamodb.BatchWriteItemInput{RequestItems: map[string][]types.WriteRequest{vTbl: {{PutRequest: &types.PutRequest{Item: in}}}}})
+			nd.Assert(err == nil, "C14-batchwrite-noerr")
+			vPokeItem(in)
+			read("C14-batchwrite-input-not-shared")
 		case 7: // a result already returned is not changed by later writes
 			g := read("C14-get")
 			nd.Assert(vPut(c, vItem{"p": vS("k"), "a": vS("other"), "b": vS("b")}) == nil, "C14-put2-noerr")
